@@ -1,10 +1,10 @@
 package main
 
 import (
-	"time"
 	"bytes"
 	"errors"
 	"fmt"
+	"time"
 
 	"go.lstv.dev/util/date"
 
